@@ -58,9 +58,14 @@ pub fn dead_code_elimination(function: &il::Function) -> Result<il::Function, Er
                         function,
                         il::RefFunctionLocation::Instruction(block, instruction),
                     );
-                    rd[&rpl.into()].locations().iter().for_each(|location| {
-                        live.insert(location.function_location().clone());
-                    });
+                    // What the branch or intrinsic observes are the definitions
+                    // reaching it, not those which hold after it.
+                    reaching_definitions::reaching_before(function, &rd, &rpl.into())?
+                        .locations()
+                        .iter()
+                        .for_each(|location| {
+                            live.insert(location.function_location().clone());
+                        });
                 }
                 _ => {}
             }
